@@ -14,19 +14,10 @@ Loop-level ties (in `Lemmas/XlateVerify.lean`, all universally quantified, by in
 indices of the list); `headu[b] = head (2*b)`, `headv[b] = head (2*b+1)`.
 No disagreement between translation and model was found.
 
-Status of the other variants (NOT finished, time):
-* Cuckarooz: loops 3 and 4 are textually Cuckaroo's; `z4_eq` (inner loop = `uFind cfgCuckarooz`) and
-  `z3_eq` (outer loop = `uWalk (uStep cfgCuckarooz …)`) are proved, re-exported below as
-  `cuckarooz_walk_eq_partial`.  Missing for the full statement
-    theorem cuckarooz_verify_eq … (hok : Cuckarooz_verify_ok ct params proof = true)
-      (hP3 : P.ctxProofSize = params.proof_size) :
-      Cuckarooz_verify ct params proof = some () ↔ verifyCuckarooz P ep proof.nonces = .ok ()
-  : loop 1 (one `head` array, key `bk u`, relation `R head s.head`; `xoruv = x0 ^^^ x1`) and loop 2,
-  i.e. the `c1_eq` / `c2_eq` scripts with `RK k0/k1` replaced by `R`, then the `cuckaroo_verify_rel` script.
-* Cuckatoo: `t4_eq` (inner loop with `uvs[k]>>1 == uvs[i]>>1` = `uFind cfgCuckatoo`) is proved, re-exported
-  as `cuckatoo_find_eq_partial`.  Missing: loop 1 (two `sipnode` calls returning `Option`, `(u>>1) & mask`,
-  `xinit = (size/2) & 1`), loop 2, loop 3 (extra `|| uvs[j] == uvs[i]` = `deadSame`), top level.
-* Cuckarood / Cuckaroom: not started. -/
+The other variants: Cuckarooz is tied at full strength in `Props/XlateVerifyZ.lean` (`cuckarooz_verify_eq`), Cuckatoo in
+`Props/XlateVerifyT.lean` (`cuckatoo_verify_eq`, `cuckatoo_verify_eq_sip`), Cuckarood / Cuckaroom in
+`Props/XlateVerifyD.lean` (see there for their status).  `cuckarooz_walk_eq_partial` / `cuckatoo_find_eq_partial` below are
+the loop-level lemmas those files build on (kept under their phase-4 names). -/
 
 namespace GV.Props.XlateVerify
 open GV GV.Gen GV.Gen.Fns GV.Pow GV.Lemmas.XlateVerify
